@@ -123,7 +123,9 @@ SPEC = {
     # a Note may be an orphan of one of them and still be wanted in the database
     "Draft": dict(fam="Z9", scalars={"title": "s"}, m2o={}, colls={"notes": (["Note"], "o2m_uni")}, delete="free", pk=None),
     "Folder": dict(fam="Z9", scalars={"name": "s"}, m2o={}, colls={"notes": (["Note"], "o2m_uni")}, delete="free", pk=None),
-    "Note": dict(fam="Z9", scalars={"text": "s"}, m2o={}, colls={}, delete="free", pk=None),
+    "Note": dict(fam="Z9", scalars={"text": "s"}, m2o={}, colls={"marks": (["Mark"], "o2m_uni")}, delete="free", pk=None),
+    # third level under the delete-orphan children: Draft/Folder -> Note -> Mark
+    "Mark": dict(fam="Z9", scalars={"score": "i"}, m2o={}, colls={}, delete="free", pk=None),
     "Vertex": dict(fam="Z8", scalars={}, m2o={}, colls={}, delete="free", pk="int", composites=["start", "end"]),
 }
 FAMILIES = sorted({v["fam"] for v in SPEC.values()})
@@ -332,6 +334,14 @@ class Zoo:
             draft_id = C(FK("draft.id"))
             folder_id = C(FK("folder.id"))
             text = C(S(30))
+            # knob: marks are deleted with their note, or have their FK nulled
+            marks = rel("Mark", cascade="all" if tree_cascade == "all" else "save-update, merge")
+
+        class Mark(Base):
+            __tablename__ = "mark"
+            id = C(I, primary_key=True)
+            note_id = C(FK("note.id"))
+            score = C(I)
 
         class Vertex(Base):
             __tablename__ = "vertex"
@@ -346,7 +356,7 @@ class Zoo:
         self.cls = {
             c.__name__: c
             for c in (Parent, Child, Owner, Item, Node, NTag, NRef, NOwner, CycA, CycB, Left, Right, Art, Tag, ArtTag,
-                      Employee, Manager, Engineer, Vehicle, Car, Truck, NUser, NAddr, Vertex, Draft, Folder, Note)
+                      Employee, Manager, Engineer, Vehicle, Car, Truck, NUser, NAddr, Vertex, Draft, Folder, Note, Mark)
         }
         reg.configure()
         self.mappers = {n: sa.inspect(c) for n, c in self.cls.items()}
@@ -357,12 +367,12 @@ class Zoo:
         # mapper event hooks (fault injection for C32); one permanent listener per zoo
         for name in ("before_insert", "after_insert", "before_update", "after_update", "before_delete", "after_delete"):
             for c in (Parent, Child, Owner, Item, Node, NTag, NRef, NOwner, CycA, CycB, Left, Right, Art, Tag, ArtTag,
-                      Employee, Vehicle, NUser, NAddr, Vertex, Draft, Folder, Note):
+                      Employee, Vehicle, NUser, NAddr, Vertex, Draft, Folder, Note, Mark):
                 event.listen(c, name, self._mk_hook(name), propagate=True)
         self.on_reload = None   # callable(obj): an instance was loaded / refreshed / expired
         for name in ("load", "refresh", "expire"):
             for c in (Parent, Child, Owner, Item, Node, NTag, NRef, NOwner, CycA, CycB, Left, Right, Art, Tag, ArtTag,
-                      Employee, Vehicle, NUser, NAddr, Vertex, Draft, Folder, Note):
+                      Employee, Vehicle, NUser, NAddr, Vertex, Draft, Folder, Note, Mark):
                 event.listen(c, name, self._mk_reload(), propagate=True)
         self._info = {}
 
